@@ -19,6 +19,9 @@ pub struct FnSpec {
     pub ret_hint: String,
     pub loops: BTreeMap<usize, String>,
     pub loops_cond: BTreeMap<usize, String>,
+    pub loop_start: BTreeMap<usize, String>,
+    pub loop_end: BTreeMap<usize, String>,
+    pub outline_exprs: Vec<(String, String)>,
     pub no_autopost: bool,
     pub cfg: Option<String>,
     pub props: Vec<String>,
@@ -129,6 +132,8 @@ pub fn parse_unit(text: &str) -> Unit {
             s if s.starts_with("before-call ") => spec.before_call.last_mut().unwrap().1.push_str(&l),
             s if s.starts_with("after-call ") => spec.after_call.last_mut().unwrap().1.push_str(&l),
             s if s.starts_with("after-let ") => spec.after_let.last_mut().unwrap().1.push_str(&l),
+            s if s.starts_with("loop-start ") => { let n: usize = s[11..].trim().parse().unwrap(); spec.loop_start.entry(n).or_default().push_str(&l) }
+            s if s.starts_with("loop-end ") => { let n: usize = s[9..].trim().parse().unwrap(); spec.loop_end.entry(n).or_default().push_str(&l) }
             s if s.starts_with("loop ") => { let n: usize = s[5..].trim().split_whitespace().next().unwrap().parse().unwrap(); spec.loops.entry(n).or_default().push_str(&l) }
             _ => panic!("unknown section {}", sec),
         }
@@ -183,6 +188,8 @@ pub fn parse_unit(text: &str) -> Unit {
             "before-call" => { u.fns.get_mut(cur_fn.as_ref().unwrap()).unwrap().before_call.push((norm(rest), String::new())); section = Some(line.to_string()); }
             "after-call" => { u.fns.get_mut(cur_fn.as_ref().unwrap()).unwrap().after_call.push((norm(rest), String::new())); section = Some(line.to_string()); }
             "after-let" => { u.fns.get_mut(cur_fn.as_ref().unwrap()).unwrap().after_let.push((norm(rest), String::new())); section = Some(line.to_string()); }
+            "outline-expr" => { let (a, b) = rest.split_once("=>").expect("outline-expr A => B"); u.fns.get_mut(cur_fn.as_ref().unwrap()).unwrap().outline_exprs.push((norm(a), b.trim().to_string())); }
+            "loop-start" | "loop-end" => { section = Some(line.trim().to_string()); }
             "requires" | "ensures" | "decreases" | "start" | "return" | "attrs" | "loop" => {
                 section = Some(if kw == "loop" { line.trim().to_string() } else { kw.to_string() });
                 if kw == "loop" { let mut it = rest.split_whitespace(); let n: usize = it.next().unwrap().parse().unwrap(); if it.next() == Some("if") { let c = it.next().unwrap().to_string(); u.fns.get_mut(cur_fn.as_ref().unwrap()).unwrap().loops_cond.insert(n, c); } }
